@@ -2,6 +2,7 @@
 '''
 import copy
 import logging
+import io
 import cbor2
 import scapy.packet
 from scapy.config import conf
@@ -37,7 +38,12 @@ class AbstractCborStruct(scapy.packet.Packet):
         :param data: The encoded bundle.
         '''
         if isinstance(s, (bytes,)):
-            s = cbor2.loads(s)
+            with io.BytesIO(s) as buf:
+                item = cbor2.load(buf)
+                if buf.tell() != len(s):
+                    # what follows the item would be silently lost
+                    raise ValueError('Extra data after the CBOR item')
+            s = item
         scapy.packet.Packet.dissect(self, s)
 
 
